@@ -49,7 +49,7 @@ func mkKey(name string, priv crypto.Signer, bits int, serial int64) (*testKey, e
 	cn := "Verif Signer " + name
 	tmpl := &x509.Certificate{
 		SerialNumber: big.NewInt(serial),
-		Subject:      pkix.Name{Country: []string{"US"}, Organization: []string{"Verif, Inc."}, CommonName: cn},
+		Subject:      pkix.Name{Country: []string{"US"}, Organization: []string{"Verif Inc"}, CommonName: cn},
 		NotBefore:    time.Unix(1700000000, 0), NotAfter: time.Unix(2000000000, 0),
 		KeyUsage:              x509.KeyUsageDigitalSignature | x509.KeyUsageCertSign,
 		ExtKeyUsage:           []x509.ExtKeyUsage{x509.ExtKeyUsageCodeSigning},
@@ -553,7 +553,7 @@ func runSig(c *core.Ctx) error {
 					sc.LicenseToken = attrOf(l.n, "publicKeyToken")
 				}
 			}
-			sc.WantName = "CN=" + k.cn + ", O=\"Verif, Inc.\", C=US"
+			sc.WantName = "CN=" + k.cn + ", O=Verif Inc, C=US"
 			sc.WantIssuer = spkiSha1(k.cert.Leaf.PublicKey)
 			if rk, ok := k.cert.Leaf.PublicKey.(*rsa.PublicKey); ok {
 				sc.RsaN, sc.RsaE = hex.EncodeToString(rk.N.Bytes()), rk.E
